@@ -641,3 +641,111 @@ func c16SemTie(stream, src string, r *Result, execModel, semModel *Model) {
 	}
 	r.Validated++
 }
+
+// ---------- the side conditions of the whole-program theorems ----------
+
+// hasElementStore: an assignment whose target is an index expression, anywhere
+func hasElementStore(n parser.Node) bool {
+	found := false
+	var blk func(b *parser.BlockStatement)
+	var st func(n parser.Node)
+	blk = func(b *parser.BlockStatement) {
+		if b == nil {
+			return
+		}
+		for _, x := range b.Statements {
+			st(x)
+		}
+	}
+	st = func(n parser.Node) {
+		switch x := n.(type) {
+		case *parser.Program:
+			for _, y := range x.Statements {
+				st(y)
+			}
+		case *parser.AssignmentStmt:
+			if _, ok := x.Target.(*parser.IndexExpression); ok {
+				found = true
+			}
+		case *parser.IfStmt:
+			if x.IfBlock != nil {
+				blk(x.IfBlock.Block)
+			}
+			for _, e := range x.ElseIfBlocks {
+				blk(e.Block)
+			}
+			blk(x.Else)
+		case *parser.WhileStmt:
+			blk(x.Block)
+		case *parser.ForStmt:
+			blk(x.Block)
+		case *parser.BlockStatement:
+			blk(x)
+		}
+	}
+	st(n)
+	return found
+}
+
+// c16Shape: C17_compile_wf_all / C16_compile_correct_plain_partial are stated under
+// wplain_slist (no key-twice map literal, no bare block) and nb_slist (no break
+// outside a loop), called guaranteed by the parser: checked here on the AST of
+// every program the real parser accepts.  And for a program the real compiler
+// accepts: no element store (read off the Go AST) must mean plain, and plain
+// must mean lfrag (compile_covered on the exported AST).
+func c16Shape(src string, r *Result, em *Model) {
+	in := map[string]any{"program": src, "stream": "shape"}
+	c := c17Compile(src)
+	if c.ParseErr != "" || c.prog == nil {
+		r.Dist("shape:parse-error")
+		return
+	}
+	ans, err := em.AskT("(shape "+astProgram(c.prog)+")", 20*time.Second)
+	if err != nil {
+		if err == ErrModelTimeout {
+			r.Dist("shape:model-timeout")
+			return
+		}
+		r.Violate(Violation{Kind: "correspondence", Key: "shape:model-crash", Detail: err.Error(), Input: in})
+		return
+	}
+	x, err := ParseSX(ans)
+	if err != nil || x.Kind != "lst" || len(x.L) != 5 {
+		r.Violate(Violation{Kind: "correspondence", Key: "shape:model-output", Detail: ans, Input: in})
+		return
+	}
+	wplain, nb, plain, lfrag := x.L[1].S == "t", x.L[2].S == "t", x.L[3].S == "t", x.L[4].S == "t"
+	r.Count(src, true)
+	if !wplain {
+		r.Violate(Violation{Kind: "correspondence", Key: "shape:parsed-program-not-wplain",
+			Detail: "the parser accepted a program whose AST is not wplain_slist (a map literal with len(Pairs) <> len(Order), or a block as a statement)", Input: in, Model: ans})
+		return
+	}
+	if !nb {
+		r.Violate(Violation{Kind: "correspondence", Key: "shape:parsed-program-break-outside-loop",
+			Detail: "the parser accepted a program with a break outside a loop (nb_slist false)", Input: in, Model: ans})
+		return
+	}
+	if c.CompileErr != "" {
+		r.Dist("shape:parsed/compile-error")
+		r.Validated++
+		return
+	}
+	store := hasElementStore(c.prog)
+	if plain == store {
+		r.Violate(Violation{Kind: "correspondence", Key: "shape:plain-vs-element-store",
+			Detail: fmt.Sprintf("plain_slist = %v but the Go AST has an element store: %v", plain, store), Input: in, Model: ans})
+		return
+	}
+	if plain && !lfrag {
+		r.Violate(Violation{Kind: "correspondence", Key: "shape:accepted-plain-not-in-fragment",
+			Detail: "the real compiler accepts the program, it is plain, and lfrag_slist is false (contradicts compile_covered on the exported AST)", Input: in, Model: ans})
+		return
+	}
+	if plain {
+		r.Dist("shape:compiled/plain")
+	} else {
+		r.Dist("shape:compiled/element-store")
+	}
+	r.Validated++
+}
